@@ -556,7 +556,13 @@ func scJunk(r *Run) {
 			if r.Intn("junk", 3) == 0 {
 				l = 48 + r.Intn("junk", 500)
 			}
-			pkt = r.Bytes("junk", l)
+			if r.Intn("junk", 6) == 0 {
+				// the largest datagrams a UDP socket can deliver: at and beyond what an honest peer ever sends
+				l = []int{64503, 64550, 64551, 64552, 64553, 65000, 65506, 65507}[r.Intn("junk", 8)]
+				r.CountFault("junk-maximum-size-datagram", 1)
+			}
+			pkt = make([]byte, l)
+			copy(pkt, r.Bytes("junk", min(l, 600)))
 			pkt[0] = 0x10
 			if r.Intn("junk", 3) == 0 {
 				pkt[0] = 0x80
